@@ -62,6 +62,18 @@ fn require_task<C: Context>(c: &mut C, key: TaskKey, chk: OChk) -> Out {
   }
 }
 
+fn require_task_z<C: Context>(c: &mut C, key: TaskKey, chk: ZOChk) -> Out {
+  match key.fam {
+    0 => c.require(&T::<0>(key.id), chk),
+    1 => c.require(&T::<1>(key.id), chk),
+    2 => c.require(&Box::new(T::<2>(key.id)), chk),
+    3 => c.require(&Rc::new(T::<3>(key.id)), chk),
+    4 => c.require(&Arc::new(T::<4>(key.id)), chk),
+    5 => c.require(&Box::new(T::<0>(key.id)), chk),
+    _ => c.require(&Rc::new(T::<0>(key.id)), chk),
+  }
+}
+
 fn read_res<C: Context>(c: &mut C, key: ResKey, chk: RChk) -> Result<Option<Val>, SimErr> {
   match key.fam {
     0 => { let mut r = c.read(&R::<0>(key.id), chk)?; Ok(r.take()) }
@@ -219,7 +231,7 @@ fn run_ops<C: Context>(c: &mut C, prog: &Program, t: Tid, n: u32, ops: &[Op], st
         st.pos += 1;
         let frame = OpFrame { t, n, pos, op: OpK::Require, target: Target::Task(*task) };
         with_sim(|s| { s.op_stack.push(frame); s.log.push(Ev::OpStart { t, n, pos, op: OpK::Require, target: frame.target }); });
-        let out = require_task(c, key, OChk { kind: *chk, tag: 0 });
+        let out = if chk.is_zst() { require_task_z(c, key, ZOChk { kind: *chk, serial: new_serial_pub() }) } else { require_task(c, key, OChk { kind: *chk, tag: 0 }) };
         let obs = chk.observe(&out);
         with_sim(|s| { s.op_stack.pop(); s.log.push(Ev::OpEnd { t, n, pos, obs: out_code(&out), ok: true }); });
         st.acc = fold(st.acc, obs);
